@@ -108,3 +108,9 @@ claim("C12", "exploration",
       "Every generated model (at least one for-equation and one user-function call, some with delay) is compiled under all 8 combinations of unroll_loops x inline_functions x expand_mx; names, order, python types, shapes and attribute values of every variable list, outputs and delay states must be identical and the residual, initial-residual, metadata and delay-argument functions must agree numerically at 5 typed, well-conditioned points.",
       "Booleans sampled in {0,1}; points the reference evaluator finds ill-conditioned are discarded (algebraically equivalent representations may differ there)",
       "DESIGN.md section 4, C12")
+
+claim("C18", "exploration",
+      "differential monitor: expanded vs unexpanded compile of the same model under the reference renaming",
+      "Generated models with 1-D and non-square 2-D arrays in every variable category, component arrays holding arrays, derivatives of arrays, array-valued/scalar attributes, array outputs and delayed array expressions are compiled without expand_vectors, with it and with it plus expand_mx; scalar names and order, per-element attributes, outputs, delay states and the residuals / delay arguments at renamed random points must agree.",
+      "the unexpanded model is the reference; generated delay symbols may be indexed [i] or [i,1]",
+      "DESIGN.md section 4, C18")
